@@ -32,6 +32,11 @@ def run(ctx):
                          modes=("serial",), max_cycles_choices=(4, 6, 8), pop_scales=(0.55, 0.8, 1), pop_offsets=(0, 1, 2, 3, 4, 5), trace_events=False)
     js += jobs.param_sweep_jobs(rng, names, kinds=("cont-sym", "cont", "cont-zero"), max_cycles=5, objectives=("sphere", "rastrigin", "neg"), minmaxes=("min", "max"))
     sp = jobs.small_population_jobs(rng, names, reps=1 if not ctx.thorough else 4)
+    # every integer parameter at the smallest / largest value its validators accept, with a cycle budget long enough for counters and thresholds to be reached
+    for name in names:
+        for k, v in optimizers.param_extremes(name):
+            sp.append({"name": name, "kind": "cont-sym+extreme-parameter", "specs": trace.task_specs(rng, "cont-sym", 3), "objective": rng.choice(["sphere", "rastrigin", "neg"]),
+                       "minmax": rng.choice(["min", "max"]), "seed": rng.randrange(1, 10 ** 6), "cfg": {"max_cycles": 25, "fitness_error": None, k: v}, "mode": "serial", "trace": False})
     for j in js[-len(js) // 2:]:
         if "+param" in j["kind"] and rng.random() < 0.5:
             j["cfg"]["population_size"] = optimizers.CFGS[j["name"]][1]["population_size"] + rng.choice([1, 2, 3])
